@@ -132,6 +132,10 @@ def execute(plan: dict[str, Any]) -> dict[str, Any]:
                 "detail": f"history {hist}: importing chartparse.{f['module']} ({f['phase']}, "
                           f"step {f['step']}) raised {f['type']}: {f['msg']}"})
         else:
+            for mb in (got.get("misbound") or [])[:1]:
+                violations.append({
+                    "sig": f"C20/import-bound-wrong-object/{mb['module']}/{mb['form']}",
+                    "detail": f"history {hist}: step {mb['step']}: {mb['what']}"})
             if got["names"] != canon["names"]:
                 diffs = []
                 for mn in sorted(set(got["names"]) | set(canon["names"])):
@@ -155,7 +159,7 @@ def execute(plan: dict[str, Any]) -> dict[str, Any]:
     first = plan["imports"][0][0]
     dig = rng.digest({"ok": got.get("ok"), "failed": got.get("failed"),
                       "names": rng.digest(got.get("names")), "identity": rng.digest(got.get("identity")),
-                      "smoke": got.get("smoke"), "v": [v["sig"] for v in violations]})
+                      "smoke": got.get("smoke"), "misbound": got.get("misbound"), "v": [v["sig"] for v in violations]})
     n_bind = sum(len(v) for v in (got.get("names") or {}).values())
     return {
         "violations": violations,
